@@ -2,7 +2,9 @@
 //! problems, feeds them (optionally with exact power-of-two column / target scalings) to the
 //! real `LinearRegression` (QR, SVD) and `RidgeRegression` (Cholesky, SVD) in f64 and f32,
 //! undoes the scalings exactly and records coefficients, intercept and predictions as
-//! fixed-point integers.  No property logic lives here: every event is judged by
+//! fixed-point integers.  A sample of the f64 problems is additionally fitted through the
+//! ndarray bindings with a column-major X and a negatively strided y (`backend: "ndarray"`).
+//! No property logic lives here: every event is judged by
 //! spec/linear/LeastSquares.tla under TLC.  The only computations on the data are (a) an exact
 //! integer rank test that keeps the generator inside the property's domain (full column
 //! rank / no constant column) and (b) a magnitude bound that picks the fixed-point scale S
@@ -15,6 +17,7 @@ use smartcore::linalg::BaseMatrix;
 use smartcore::linear::linear_regression::*;
 use smartcore::linear::ridge_regression::*;
 use smartcore::math::num::RealNumber;
+use ndarray::{Array1, Array2, Axis, ShapeBuilder};
 use vutil::*;
 
 const LIMIT: i128 = 1 << 30;
@@ -114,6 +117,65 @@ fn ridge<T: RealNumber>(c: &Case, solver: &'static str, alpha: f64, normalize: b
         Ok(Err(_)) => failed(solver, "err"),
         Err(_) => failed(solver, "panic"),
     }
+}
+
+// ------------------------------------------------------------------ ndarray back end
+/// The same problem through the ndarray bindings, with the memory layouts a caller may
+/// legitimately pass: X column-major (Fortran order) and y as an owned Array1 with a
+/// *negative* stride (built reversed, then `invert_axis`), logically identical to the dense
+/// inputs.  Coefficients, intercept and predictions go through the same contract.
+fn nd_inputs(c: &Case) -> (Array2<f64>, Array1<f64>) {
+    let n = c.x.len();
+    let p = c.x[0].len();
+    let mut col_major = Vec::with_capacity(n * p);
+    for j in 0..p {
+        for i in 0..n {
+            col_major.push(c.x[i][j] as f64 * p2(c.cexp[j]));
+        }
+    }
+    let x = Array2::from_shape_vec((n, p).f(), col_major).unwrap();
+    let rev: Vec<f64> = c.y.iter().rev().map(|&v| v as f64 * p2(c.yexp)).collect();
+    let mut y = Array1::from_vec(rev);
+    y.invert_axis(Axis(0));
+    (x, y)
+}
+
+fn nd_out(c: &Case, solver: &'static str, r: Result<Result<(Array2<f64>, f64, Array1<f64>), smartcore::error::Failed>, String>) -> FitOut {
+    match r {
+        Ok(Ok((w, b, yh))) => FitOut {
+            solver,
+            status: "ok",
+            w: (0..c.cexp.len()).map(|j| w[[j, 0]] * p2(c.cexp[j] - c.yexp)).collect(),
+            b: b * p2(-c.yexp),
+            yhat: yh.iter().map(|v| v * p2(-c.yexp)).collect(),
+        },
+        Ok(Err(_)) => failed(solver, "err"),
+        Err(_) => failed(solver, "panic"),
+    }
+}
+
+fn ols_nd(c: &Case, solver: &'static str) -> FitOut {
+    let (x, y) = nd_inputs(c);
+    let s = if solver == "qr" { LinearRegressionSolverName::QR } else { LinearRegressionSolverName::SVD };
+    let r = guard(|| {
+        LinearRegression::fit(&x, &y, LinearRegressionParameters { solver: s }).and_then(|m| {
+            let yh = m.predict(&x)?;
+            Ok((m.coefficients().clone(), m.intercept(), yh))
+        })
+    });
+    nd_out(c, solver, r)
+}
+
+fn ridge_nd(c: &Case, solver: &'static str, alpha: f64, normalize: bool) -> FitOut {
+    let (x, y) = nd_inputs(c);
+    let s = if solver == "chol" { RidgeRegressionSolverName::Cholesky } else { RidgeRegressionSolverName::SVD };
+    let r = guard(|| {
+        RidgeRegression::fit(&x, &y, RidgeRegressionParameters { solver: s, alpha, normalize }).and_then(|m| {
+            let yh = m.predict(&x)?;
+            Ok((m.coefficients().clone(), m.intercept(), yh))
+        })
+    });
+    nd_out(c, solver, r)
 }
 
 // ------------------------------------------------------------------ exact integer rank test
@@ -384,6 +446,7 @@ fn emit(out: &mut Out, run: i64, ev: &str, prec: &str, c: &Case, fits: &[FitOut]
         None => *skipped += 1,
         Some((s, vals)) => {
             let mut e = json!({"run": run, "ev": ev, "prec": prec, "fam": c.fam, "S": s,
+                "backend": if c.fam.ends_with("/ndarray") { "ndarray" } else { "dense" },
                 "n": c.x.len(), "p": c.x[0].len(), "X": c.x, "y": c.y, "cexp": c.cexp, "yexp": c.yexp, "fits": vals});
             if let Some((an, ae, norm)) = ridge {
                 e["aN"] = json!(an);
@@ -423,6 +486,14 @@ fn gen(path: &str) {
         } else {
             let fits = vec![ols::<f64>(&c, "qr"), ols::<f64>(&c, "svd")];
             emit(&mut out, run, "Ols", "f64", &c, &fits, None, &mut skipped);
+            if made % 8 == 1 {
+                // the same problem through the ndarray bindings (column-major X, negatively strided y)
+                let mut cn = c.clone();
+                cn.fam = format!("{}/ndarray", c.fam);
+                let fits = vec![ols_nd(&cn, "qr"), ols_nd(&cn, "svd")];
+                run += 1;
+                emit(&mut out, run, "Ols", "f64", &cn, &fits, None, &mut skipped);
+            }
         }
     }
     made = 0;
@@ -447,6 +518,13 @@ fn gen(path: &str) {
         } else {
             let fits = vec![ridge::<f64>(&c, "chol", alpha, normalize), ridge::<f64>(&c, "svd", alpha, normalize)];
             emit(&mut out, run, "Ridge", "f64", &c, &fits, Some((an, ae, normalize)), &mut skipped);
+            if made % 8 == 1 {
+                let mut cn = c.clone();
+                cn.fam = format!("{}/ndarray", c.fam);
+                let fits = vec![ridge_nd(&cn, "chol", alpha, normalize), ridge_nd(&cn, "svd", alpha, normalize)];
+                run += 1;
+                emit(&mut out, run, "Ridge", "f64", &cn, &fits, Some((an, ae, normalize)), &mut skipped);
+            }
         }
     }
     let n = out.finish();
@@ -466,7 +544,18 @@ fn replay_file(input: &str, path: &str) {
         let c = Case { fam: e["fam"].as_str().unwrap_or("replay").to_string(), x, y, cexp, yexp };
         let prec = e["prec"].as_str().unwrap().to_string();
         let run = e["run"].as_i64().unwrap();
-        if e["ev"] == "Ols" {
+        let nd = c.fam.ends_with("/ndarray");
+        if e["ev"] == "Ols" && nd {
+            let fits = vec![ols_nd(&c, "qr"), ols_nd(&c, "svd")];
+            emit(&mut out, run, "Ols", &prec, &c, &fits, None, &mut skipped);
+        } else if nd {
+            let an = e["aN"].as_i64().unwrap();
+            let ae = e["aE"].as_u64().unwrap() as u32;
+            let norm = e["normalize"].as_bool().unwrap();
+            let alpha = an as f64 / (1u64 << ae) as f64;
+            let fits = vec![ridge_nd(&c, "chol", alpha, norm), ridge_nd(&c, "svd", alpha, norm)];
+            emit(&mut out, run, "Ridge", &prec, &c, &fits, Some((an, ae, norm)), &mut skipped);
+        } else if e["ev"] == "Ols" {
             let fits = if prec == "f32" { vec![ols::<f32>(&c, "qr"), ols::<f32>(&c, "svd")] } else { vec![ols::<f64>(&c, "qr"), ols::<f64>(&c, "svd")] };
             emit(&mut out, run, "Ols", &prec, &c, &fits, None, &mut skipped);
         } else {
